@@ -230,6 +230,10 @@ pub fn case(ctx: &Ctx, shard: usize, index: u64, rep: &mut Report) {
     // the twins' sources deliver their bytes differently (whole, or a few bytes per read call)
     a.chunk = *rng.pick(&[usize::MAX, usize::MAX, 1, 3, 64]);
     b.chunk = *rng.pick(&[usize::MAX, usize::MAX, 2, 7, 1000]);
+    // ... and A's source may fail one read call per picture with a transient error (the call is repeated)
+    if rng.chance(1, 5) {
+        a.stall = Some((rng.below(1001) as usize, rng.below(3) as u8));
+    }
     for p in &hist {
         let (oa, ob) = (a.decode(p), b.decode(p));
         if oa != Outcome::Ok || ob != Outcome::Ok {
@@ -282,6 +286,7 @@ pub fn case(ctx: &Ctx, shard: usize, index: u64, rep: &mut Report) {
         rep.count("continuation_steps_compared");
     }
     rep.count(&format!("continuation_len={}", k));
+    rep.add("calls_repeated_after_transient_source_error", a.stalls_retried as u64);
     // ---- same failing input in a shared reader, after a valid picture ----
     {
         let lead = gen_intra(&mut rng, &cfg).encode();
@@ -354,7 +359,10 @@ fn split_case(ctx: &Ctx, shard: usize, index: u64, rep: &mut Report) {
     let with_hist = rng.chance(1, 2);
     let hist = gen_reference(&mut rng, &cfg).encode();
     cfg.tr = cfg.tr.wrapping_add(1);
-    let pic = if with_hist && rng.chance(1, 2) { gen_inter(&mut rng, &cfg, &InterCfg { ptype: 0, big_vectors_pct: 30, residual_pct: 50, truncate: None, allow_q: true }).encode() } else { gen_intra(&mut rng, &cfg).encode() };
+    let sym = if with_hist && rng.chance(1, 2) { gen_inter(&mut rng, &cfg, &InterCfg { ptype: 0, big_vectors_pct: 30, residual_pct: 50, truncate: None, allow_q: true }) } else { gen_intra(&mut rng, &cfg) };
+    // where the picture header ends, where each macroblock starts and where its header ends (block data starts)
+    let (_, mb_starts, mb_hdr_ends) = sym.encode_bits_ex();
+    let pic = sym.encode();
     let coords = || crate::mon::coords("C05", ctx, shard, index).set("what", "split");
     // one-shot
     let mut one = Dec::new(sorenson, false);
@@ -412,13 +420,38 @@ fn split_case(ctx: &Ctx, shard: usize, index: u64, rep: &mut Report) {
                 rep.violation(format!("panic@{}", loc), format!("split delivery at byte {} of {}: {}", split, pic.len(), msg), coords());
                 return;
             }
-            Ok((Outcome::Ok, _)) => rep.count("split:first-call-succeeded-on-prefix"),
+            Ok((Outcome::Ok, _)) => {
+                // The decoder takes data that ends inside a macroblock *header* for an early end of the picture.
+                // Anything else that is missing is a lack of data and has to fail, so that it can be retried:
+                // a prefix that stops inside the picture header, or inside the block data of a macroblock.
+                let p = split * 8; // first missing bit
+                let where_ = if p < mb_starts[0] {
+                    Some("inside-picture-header")
+                } else {
+                    let i = (0..mb_hdr_ends.len()).find(|i| mb_starts[*i] <= p && p < mb_starts[*i + 1]);
+                    match i {
+                        Some(i) if p >= mb_hdr_ends[i] => Some("inside-block-data"),
+                        _ => None,
+                    }
+                };
+                if let Some(wh) = where_ {
+                    rep.violation(format!("split/prefix-accepted/{}", wh), format!("{} {}x{} picture of {} bytes: the first {} bytes alone decode successfully although the data stops {} (header ends at bit {}, macroblocks start at {:?}...)", flavour.name(), w, h, pic.len(), split, wh.replace('-', " "), mb_starts[0], &mb_starts[..mb_starts.len().min(4)]), coords());
+                    return;
+                }
+                rep.count("split:prefix-accepted-inside-a-macroblock-header-or-at-a-boundary");
+            }
             Ok((Outcome::Err(e1), Some(o2))) => {
                 if o2 != Outcome::Ok || d.snapshot() != want {
                     rep.violation(format!("split-retry/{}", if o2 == Outcome::Ok { "different-picture" } else { "retry-failed" }), format!("{} {}x{} picture of {} bytes split at byte {}: first call {}, retry after appending {} (one-shot result differs: {}) picture={}", flavour.name(), w, h, pic.len(), split, e1, o2.short(), d.snapshot() != want, hex(&pic[..pic.len().min(48)])), coords());
                     return;
                 }
                 rep.count("split:retried-ok");
+                let p = split * 8;
+                if p < mb_starts[0] {
+                    rep.count("split:inside-picture-header:failed-and-retried");
+                } else if (0..mb_hdr_ends.len()).any(|i| mb_hdr_ends[i] <= p && p < mb_starts[i + 1]) {
+                    rep.count("split:inside-block-data:failed-and-retried");
+                }
                 rep.count(&format!("split:first-error:{}", e1));
             }
             Ok(_) => {}
@@ -590,7 +623,7 @@ pub fn run(ctx: &Ctx) -> (Report, String) {
     if ctx.is_main() {
         let m = ctx.scale_pct;
         rep.require("continuation_steps_compared", if ctx.tier == Tier::Thorough { 1_500_000 } else { 80_000 } * m / 100);
-        for k in ["depth=header", "depth=truncation", "depth=macroblock-header", "depth=block-data", "depth=prediction", "shared_reader_position_checks", "split:retried-ok", "split_pictures", "shared_reader_position_checks_before_another_picture", "shared_reader_before_picture:standard:prediction", "shared_reader_before_picture:sorenson:prediction", "prediction_failures_ending_early", "long_histories"] {
+        for k in ["depth=header", "depth=truncation", "depth=macroblock-header", "depth=block-data", "depth=prediction", "shared_reader_position_checks", "split:retried-ok", "split:inside-picture-header:failed-and-retried", "split:inside-block-data:failed-and-retried", "split_pictures", "shared_reader_position_checks_before_another_picture", "shared_reader_before_picture:standard:prediction", "shared_reader_before_picture:sorenson:prediction", "prediction_failures_ending_early", "long_histories", "calls_repeated_after_transient_source_error"] {
             rep.require(k, 100 * m / 100);
         }
     }
